@@ -9,7 +9,6 @@ use lsp_types::{
     DocumentHighlight, DocumentHighlightParams, GotoDefinitionParams, GotoDefinitionResponse,
     Location, LocationLink, ReferenceParams, Url,
 };
-use mos_core::codegen::DefinitionType;
 
 pub struct GoToDefinitionHandler;
 pub struct FindReferencesHandler;
@@ -76,11 +75,8 @@ impl RequestHandler<References> for FindReferencesHandler {
             Some(path) => path,
             None => return Ok(None),
         };
-        let defs = analysis.find_filter(
-            path,
-            to_line_col(&params.text_document_position.position),
-            |ty| matches!(ty, DefinitionType::Symbol(_)),
-        );
+        // The symbol 'go to definition' leads to from here, and all of its copies
+        let defs = analysis.symbols_at(path, to_line_col(&params.text_document_position.position));
 
         let locations = defs
             .into_iter()
@@ -114,12 +110,10 @@ impl RequestHandler<DocumentHighlightRequest> for DocumentHighlightRequestHandle
             Some(path) => path,
             None => return Ok(None),
         };
-        // The same symbols that 'find references' looks at: an imported file is a definition that contains every
-        // position in the file, but it is not what is to be highlighted
-        let defs = analysis.find_filter(
+        // The same symbols that 'find references' looks at
+        let defs = analysis.symbols_at(
             path,
             to_line_col(&params.text_document_position_params.position),
-            |ty| matches!(ty, DefinitionType::Symbol(_)),
         );
         let highlights = defs
             .into_iter()
